@@ -117,6 +117,21 @@ def spec_features(spec):
         pass
     if not idl:
         f.add("lia")
+    # non-linear integer arithmetic: z3's optimisers give no optimality guarantee there
+    if any((w.get("cost") or {}).get("kind") in ("linear", "poly") for w in spec.get("workers", [])):
+        f.add("nonlinear")
+    if spec["problem"].get("horizon") is None and any(i["kind"] == "Utilization" for i in spec.get("indicators", [])):
+        f.add("nonlinear")
+
+    def prod_of_vars(e):
+        if not isinstance(e, list):
+            return False
+        if e[0] == "*" and all(isinstance(x, list) for x in e[1:]):
+            return True
+        return any(prod_of_vars(x) for x in e[1:])
+
+    if any(prod_of_vars(i.get("expr")) for i in spec.get("indicators", []) if i["kind"] == "FromExpr"):
+        f.add("nonlinear")
     return f
 
 
@@ -184,6 +199,11 @@ def run_spec(case):
                     finished = bool(res["checks"]) and res["checks"][-1] == "unsat"
                 comparable = finished and (not multi or cfg.get("optimizer") == "incremental"
                                            or cfg.get("optimize_priority") == "weight")
+                if "nonlinear" in feats and (cfg.get("optimizer") == "optimize" or cfg.get("random_values")
+                                             or cfg.get("parallel")):
+                    # non-linear objective: only the default deterministic incremental loop is compared
+                    comparable = False
+                    acc.count(acc.outcomes, "nonlinear_objective_not_compared")
                 if cfg.get("optimizer") == "optimize" and "quant" in feats:
                     # z3: "optimization with quantified constraints is not supported"
                     comparable = False
